@@ -281,9 +281,9 @@ for k, v in ADDED9.items():
         _late[k] = _late.get(k, "") + v
 
 ADDED10 = {
- "C01": " Wave 9: R-REPKIND (a group loop merges only with a child loop of its own laziness), R-ENUMFULL (disjointness by enumeration looks at every member).",
+ "C01": " Wave 9: R-REPKIND (a group loop merges only with a child loop of its own laziness), R-ENUMFULL (disjointness by enumeration looks at every member), R-BMFALLBACK (open entries of the Boyer-Moore good-suffix table get the unit step).",
  "C02": " Wave 9: R-RESETALL (a recycled Match is cleared unconditionally).",
- "C03": " Wave 9: R-BYTECAND (a byte candidate is never len(input) minus a pattern length).",
+ "C03": " Wave 9: R-BYTECAND (a byte candidate is never len(input) minus a pattern length), R-BMFALLBACK.",
  "C04": " Wave 9: R-MONOFLAG (the all-branches-fixed flag of the alternation analysis can only be lowered).",
  "C05": " Wave 9: R-REPKIND, R-ENUMFULL, R-EOLNL also for rows in a separate if, R-REPCAP (nested group loops around a capture are not merged).",
  "C06": " Wave 9: R-REPKIND, R-SPACEARGS, R-OFFTABLE (ReadRune sizes are used).",
